@@ -77,6 +77,11 @@ func (p *c17) build(seed uint64, tier string) []SendScenario {
 					if r.Chance(1, 2) {
 						s.Server.TLS.Version = sim.Pick(r, []string{"1.2", "1.3"})
 					}
+					if r.Chance(1, 3) {
+						// the caller's context has a deadline of its own, later than the configured
+						// timeout: the bound stays the configured timeout
+						s.CtxMs = to + 1000 + r.Intn(120000)
+					}
 					switch op {
 					case "dialandsend":
 						s.Batches = [][]MsgSpec{{SimpleMsg("m1", "a@dest.example", "b@dest.example"), SimpleMsg("m2")}}
@@ -175,6 +180,17 @@ func (p *c17) build(seed uint64, tier string) []SendScenario {
 				}
 				// the server stops reading
 				if op == "dialandsend" || op == "send" {
+					// ... right after its 354: the content (of any size relative to the client's
+					// write buffer and to the send window) is written into a connection nobody reads
+					for _, size := range []int{100, 1500, 3500, 5000, 20000} {
+						for _, win := range []int{64, 1024, 4096, 65536} {
+							s := base(fmt.Sprintf("stop-reading-after-354/size=%d,win=%d", size, win))
+							s.Batches = [][]MsgSpec{{bigMsg("big", size)}}
+							s.Conn = sim.ConnFaults{Window: win}
+							s.Server.Rules = []refsmtpd.Rule{{Verb: "DATA", Nth: 1, Action: refsmtpd.Action{StopReading: true}}}
+							out = append(out, s)
+						}
+					}
 					for _, off := range []int64{20, 6000, 30000} {
 						s := base(fmt.Sprintf("c2s-stall@%d", off))
 						s.Batches = [][]MsgSpec{{bigMsg("big", 60000)}}
@@ -368,6 +384,7 @@ func (p *c17) Info() PropInfo {
 		Stubbed:    []string{"TCP (sim.Pipe with send window)", "SMTP server (refsmtpd)", "clock (synctest bubble)"},
 		NotCovered: []string{"a dial function that itself blocks (the context deadline covers it)", "implicit TLS through the default dialer"},
 		Exhaustive: func(string) bool { return true },
+		HangIsViolation: true,
 		QuickBudget: 90 * time.Second, ThoroughBudget: 20 * time.Minute,
 	}
 }
